@@ -630,6 +630,10 @@ func TestGovcBoundedC09Types(t *testing.T) {
 		src := `module m { namespace "urn:m"; prefix m;
   typedef t { type string { pattern "a"; pattern "b"; pattern "c"; } }
   leaf x { type t { pattern "X"; } } leaf y { type t { pattern "Y"; } } leaf z { type t; }
+  typedef c1 { type string { pattern "p1"; } } typedef c2 { type c1 { pattern "p2"; } } typedef c3 { type c2 { pattern "p3"; } }
+  leaf cx { type c3 { pattern "X"; } } leaf cy { type c3 { pattern "Y"; } } leaf cz { type c3; }
+  typedef d1 { type string { pattern "q1"; pattern "q2"; } } typedef d2 { type d1 { pattern "q3"; pattern "q4"; pattern "q5"; } }
+  leaf dx { type d2 { pattern "X"; } } leaf dy { type d2 { pattern "Y"; pattern "Z"; } } leaf dz { type d2; }
   typedef un { type union { type string; type int8; type int16; } }
   leaf u1 { type union { type un; type boolean; } } leaf u2 { type union { type un; type uint8; } }
   leaf ub { type union { type bits { bit a; } type bits { bit b; } type bits { bit a; } } }
@@ -644,6 +648,13 @@ func TestGovcBoundedC09Types(t *testing.T) {
 			pat := func(n string) string { return strings.Join(e.Dir[n].Type.Pattern, " ") }
 			if pat("x") != "a b c X" || pat("y") != "a b c Y" || pat("z") != "a b c" {
 				fmt.Printf("GOVC-FAIL name=c09-type-resolution patterns of three leaves of one typedef: x=[%s] y=[%s] z=[%s], expected [a b c X] [a b c Y] [a b c]\n", pat("x"), pat("y"), pat("z"))
+			}
+			// the same over chains of typedefs that add patterns level by level (lists of length 3 and 5: spare capacity)
+			if got := pat("cx") + " / " + pat("cy") + " / " + pat("cz"); got != "p1 p2 p3 X / p1 p2 p3 Y / p1 p2 p3" {
+				fmt.Printf("GOVC-FAIL name=c09-type-resolution patterns over a chain of three typedefs: cx / cy / cz = %s\n", got)
+			}
+			if got := pat("dx") + " / " + pat("dy") + " / " + pat("dz"); got != "q1 q2 q3 q4 q5 X / q1 q2 q3 q4 q5 Y Z / q1 q2 q3 q4 q5" {
+				fmt.Printf("GOVC-FAIL name=c09-type-resolution patterns over a chain of two typedefs: dx / dy / dz = %s\n", got)
 			}
 			if n := len(e.Dir["ub"].Type.Type); n != 2 {
 				fmt.Printf("GOVC-FAIL name=c09-type-resolution union of bits{a}, bits{b}, bits{a} has %d members, expected 2 (the third repeats the first)\n", n)
